@@ -356,6 +356,37 @@ pub fn gen_universe(w: &World, rng: &mut Rng, prop: Prop) -> Universe {
         }
         chosen
     };
+    let mut e = e;
+    let mut extra_queries: Vec<String> = vec![];
+    if prop == Prop::C11 && rng.chance(1, 6) {
+        // a hand-built registry may give a path to an entry that is not a struct or enum
+        // (a named sequence, array, tuple, primitive ...): still "the path of some registry type"
+        let anon: Vec<usize> = e
+            .reg
+            .types
+            .iter()
+            .enumerate()
+            .filter(|(_, t)| t.ty.path.segments.is_empty())
+            .map(|(i, _)| i)
+            .collect();
+        let named = refmodel::named_paths(&e.reg);
+        if !anon.is_empty() && !named.is_empty() {
+            let i = *rng.pick(&anon);
+            let like = rng.pick(&named).clone();
+            let mut segs: Vec<String> = like.split("::").map(|s| s.to_string()).collect();
+            if rng.chance(1, 2) {
+                // same identifier as an existing type, other module
+                let n = segs.len();
+                segs[n - 2] = format!("{}_raw", segs[n - 2]);
+            } else {
+                *segs.last_mut().unwrap() = "Bytes".to_string();
+            }
+            extra_queries.push(segs.last().unwrap().clone());
+            extra_queries.push(segs.join("::"));
+            e.reg.types[i].ty.path.segments = segs;
+            e.name = format!("{}+named-entry{i}", e.name);
+        }
+    }
     let by_path = refmodel::ids_by_path(&e.reg);
     let single: Vec<String> = refmodel::named_paths(&e.reg)
         .into_iter()
@@ -408,6 +439,7 @@ pub fn gen_universe(w: &World, rng: &mut Rng, prop: Prop) -> Universe {
             _ => queries.push(p.clone()),
         }
     }
+    queries.extend(extra_queries);
     queries.push("Option".into());
     queries.push("x::Option<T>".into());
     // the foreign registry: the polkadot-free smallest family whose paths are disjoint
